@@ -15,10 +15,11 @@ func init() {
 		run: runC14,
 		explanation: "Decided (structural, for every decodable request message): " +
 			"C14.wirenil — nil-ability of protobuf message pointers is computed from the generated structs (singular message-typed fields of messages may be nil after decoding; oneof wrapper members and repeated elements are allocated by the decoder) and propagated through parameters to a fixpoint over module call sites; in everything reachable from the gRPC handler every field access through a possibly-nil message pointer is dominated by a nil test (generated nil-safe getters count as guards); " +
-			"C14.exprnil — the protobuf-to-expression conversion never returns a nil Expression together with a nil error (every successful return yields a freshly allocated node, and the default case of the oneof switch is an error), and a converted operand is used only where its conversion error is known to be nil, so Execute never calls a method on a nil Expression that came from the wire; " +
+			"C14.exprnil — the protobuf-to-expression conversion never returns a nil Expression together with a nil error (every successful return — of the conversion, or of the helper whose results a case returns — yields a freshly allocated node, and the default case of the oneof switch is an error), and a converted operand is used only where its conversion error is known to be nil, so Execute never calls a method on a nil Expression that came from the wire; " +
 			"C14.slicecap — refutation of re-slicings in the evaluation code: where the capacity is evident (fixed array, make) and the bound is linear in one length, no length allowed by the dominating tests makes the bound exceed the capacity; " +
-			"C14.bounds — every slice indexing in the evaluation code reachable from Execute is a range-loop index or is dominated by a length test (operand lists can be empty on the wire); " +
-			"C14.errors — conversion and execution errors (unknown columns included) are returned from the handler as RPC errors, with a nil response. " +
+			"C14.bounds — every slice indexing in the module code a request reaches (the handler's own code, the conversion package, the evaluation code reachable from Execute) is a range-loop index or is dominated by a length test (operand lists can be empty on the wire, query ids are chosen by the client); " +
+			"C14.divzero — every integer division or remainder in that code has a divisor that is a non-zero constant or is known non-zero from a dominating test (every list of a decodable request can be empty); " +
+			"C14.errors — conversion and execution errors (unknown columns included) are returned from the handler as RPC errors, with a nil response; where they arise in a helper of the handler's package, the helper returns them and the handler treats the helper's error the same way. " +
 			"NOT decided: stack depth for deeply nested expressions (bounded by protobuf-go's recursion limit and gRPC's message size limit, trusted); that the server keeps answering correctly afterwards beyond the read lock being released by its defer (C04).",
 		assumptions: []string{"protobuf-go allocates oneof wrapper members and repeated message elements when decoding", "grpc-go does not recover handler panics (so the rules are necessary)", "go/ssa, dominance"},
 	})
@@ -182,24 +183,7 @@ func runC14(c *Ctx) {
 
 	// ---- exprnil
 	te := c.a.ToExpr
-	nRet := 0
-	allInstrs(te, func(i ssa.Instruction) {
-		if !isSuccessReturn(i) {
-			return
-		}
-		ret := i.(*ssa.Return)
-		nRet++
-		v := retVals(ret)[0]
-		ok := false
-		if mi, isMI := v.(*ssa.MakeInterface); isMI {
-			if _, isAlloc := peel(mi.X).(*ssa.Alloc); isAlloc {
-				ok = true
-			}
-		}
-		c.r.check(ok, "C14.exprnil", fmt.Sprintf("%s: return#%d", safeFname(te), nRet), "returns a freshly allocated expression node",
-			"the conversion can return an Expression that is not a freshly allocated node together with a nil error (e.g. nil for an unset or unknown oneof value): Execute then calls a method on a nil interface and the server dies", c.w.ipos(i))
-	})
-	if nRet == 0 {
+	if nRet := c14ExprReturns(c, te, te, 0, map[*ssa.Function]bool{}); nRet == 0 {
 		c.r.undecided("C14.exprnil", safeFname(te), "no successful return")
 	}
 	// the expression a conversion yields is used (stored as operand / as the query's expression) only where its error is known to be nil
@@ -228,12 +212,11 @@ func runC14(c *Ctx) {
 	}
 	// ---- bounds: operand lists may be empty on the wire (an AND/OR without operands decodes fine): every slice index in
 	// the evaluation code must be covered by a length test or be a range-loop index
-	ere := c.w.reach(c.a.Execute)
+	// Scope: the evaluation code and, as indices can also come from the wire there (query ids, positions), the
+	// handler's own code and the conversion package — everything in the module a request reaches (c14HandlerCode).
+	handlerCode := c14HandlerCode(c)
 	nIdx := 0
-	for _, fn := range ere.sorted() {
-		if c.w.pkgPathOf(fn) != pkgRoot {
-			continue
-		}
+	for _, fn := range handlerCode {
 		if isSortLess(fn) {
 			continue // indices are supplied by package sort for the slice being sorted (trusted)
 		}
@@ -255,33 +238,25 @@ func runC14(c *Ctx) {
 				okB, why = c.fc.indexInBounds(ia.X, ia.Index, ia)
 			}
 			c.r.check(okB, "C14.bounds", key, "index covered by a length test / range loop",
-				"a slice is indexed during query evaluation without a bounds guarantee ("+why+"): an operator with an empty operand list, which decodes fine from the wire, makes the handler panic", c.w.ipos(i))
+				"a slice is indexed while a request is handled without a bounds guarantee ("+why+"): an operator with an empty operand list or an index computed from a number the client chose (a query id), both of which decode fine from the wire, makes the handler panic", c.w.ipos(i))
 		})
 	}
 	c.r.Stats["evaluation_slice_indexings"] = nIdx
 	c14SliceCap(c)
+	c14DivZero(c, handlerCode)
 
-	// ---- errors in the handler
+	// ---- errors in the handler (and in the helpers of its package that handle one query on its behalf)
 	sq := c.a.ServerQuery
-	n := 0
-	allInstrs(sq, func(i ssa.Instruction) {
-		call, ok := i.(*ssa.Call)
-		if !ok {
-			return
-		}
-		f := calleeFunc(&call.Call)
-		if f != c.a.ToQuery && f != c.a.Execute {
-			return
-		}
-		n++
-		out := c.fc.errPropagated(sq, call, resultValue(call, 1))
-		key := fmt.Sprintf("%s: %s", safeFname(sq), safeFname(f))
+	hscope, sites := handlerErrSites(c, sq, func(f *ssa.Function) bool { return f == c.a.ToQuery || f == c.a.Execute })
+	for _, s := range sites {
+		out := errEndsRequest(c, sq, hscope, s.f, s.call, 0)
+		key := fmt.Sprintf("%s: %s", safeFname(s.f), safeFname(s.callee))
 		if out.ok {
-			c.r.ok("C14.errors", key, out.msg, c.w.ipos(call))
+			c.r.ok("C14.errors", key, out.msg, c.w.ipos(s.call))
 		} else {
 			c.r.bad("C14.errors", key, "the error does not become an RPC error: "+out.msg, []string{c.w.ipos(out.site)}, c.fc.witnessStrings(out.witness)...)
 		}
-	})
+	}
 	c.r.expect("C14.errors", 2)
 }
 
